@@ -14,6 +14,11 @@ fn shared() -> u32 {
     std::hint::black_box(0)
 }
 
+#[inline(never)]
+fn counted() -> u32 {
+    std::hint::black_box(77)
+}
+
 macro_rules! fakes {
     ($($n:literal)*) => {
         $( paste_fake!($n); )*
@@ -78,6 +83,13 @@ pub fn run(a: &Args, out: &mut impl Write) {
                         let pre = shared();
                         log.lock().unwrap().push(format!("C{}:{}", i, pre));
                         let reps = *r.pick(&[1usize, 1, 1, 2, 32, 64]);
+                        // sometimes leave a call-count expectation unmet, so that the release itself
+                        // panics (normal scope exit, verification fails)
+                        let unmet = !by_panic && r.chance(1, 3);
+                        if unmet {
+                            inj.when_called(shadow::func!(fn (counted)() -> u32))
+                                .will_execute(shadow::fake!(func_type: fn() -> u32, returns: 78, times: 1));
+                        }
                         for _ in 0..reps {
                             inj.when_called(shadow::func!(fn (shared)() -> u32)).will_execute_raw(fake_ptr(i));
                         }
@@ -90,12 +102,15 @@ pub fn run(a: &Args, out: &mut impl Write) {
                             log.lock().unwrap().push(format!("C{}:{}", i, v2));
                         }
                         INSIDE.fetch_sub(1, Ordering::SeqCst);
-                        log.lock().unwrap().push(format!("R{}{}", i, if by_panic { 'p' } else { 'd' }));
+                        log.lock().unwrap().push(format!("R{}{}", i, if by_panic { 'p' } else if unmet { 'v' } else { 'd' }));
                         if by_panic {
                             let _ = quiet_catch(std::panic::AssertUnwindSafe(move || {
                                 let _keep = inj;
                                 panic!("unwinding with fakes installed");
                             }));
+                        } else if unmet {
+                            let r = quiet_catch(std::panic::AssertUnwindSafe(move || drop(inj)));
+                            assert!(r.is_err());
                         } else {
                             drop(inj);
                         }
